@@ -1,6 +1,6 @@
 (* Check.v — the correspondence check: the executable model is run on the states observed in the Go
    implementation (one snapshot after every step of Layout) and compared with the next observed state. *)
-From Autog Require Export Contracts CrossCount Wmedian Pipeline.
+From Autog Require Export Contracts CrossCount Wmedian Pipeline BK.
 From Coq Require Import NArith.
 Local Open Scope Q_scope.
 
@@ -16,6 +16,7 @@ Record tcase := mkCase {
   c_sizes : option (list (ident * (Q * Q)));
   c_opts : options;
   c_wmedian : bool;
+  c_bk : Z;                                    (* Brandes-Koepf variant: -1 balanced, 0..3 forced, -2 not used *)
   c_snaps : list snap;
   c_out_nodes : list onode;
   c_out_edges : list oedge;
@@ -70,7 +71,8 @@ Definition model_step (c : tcase) (label : nat) (before after : graph) (del : li
   | 4%nat => phase2 (o_p2 o) (ns_params o) before
   | 5%nat => phase3 (c_wmedian c) (order_of after) before
   | 6%nat => match o_p4 o with
-             | OtherPositioner => phase4_oracle (p4_params o) (xs_of after) before
+             | OtherPositioner => if bk_modelled && (-2 <? c_bk c)%Z then phase4_bk (c_bk c) (p4_params o) before
+                                  else phase4_oracle (p4_params o) (xs_of after) before
              | alg => phase4 alg (p4_params o) before
              end
   | 7%nat => match o_p5 o with
